@@ -380,6 +380,24 @@ func scenShutdown(e *Env, args []string, r *rand.Rand) {
 			p.waitEv(0, stepWait, "cb.enter", "OnOpenMessage")
 			stop(p)
 		}
+	case "listener-error":
+		// the listener fails under Serve: Serve returns that error after stopping every peer (like Close)
+		p := e.addPeer(1, PeerOpts{LocalAS: localAS, RemoteAS: remoteAS, Hold: 90, Passive: dir == "in"})
+		e.serve()
+		p.bring(dir, m["st"], 90, remoteID)
+		e.tr.log("-", "api.call", "ListenerClose")
+		e.lis.Close()
+		select {
+		case <-e.serveCh:
+		case <-time.After(5 * time.Second):
+			e.tr.log("-", "api.hang", "Serve")
+		}
+		e.serveCh = nil
+		e.settle()
+		// a later Serve / Close on the stopped server
+		err := e.srv.Serve(nil)
+		e.tr.log("-", "api.ret", "Serve2", errName(err))
+		e.close()
 	case "idle":
 		p := e.addPeer(1, PeerOpts{LocalAS: localAS, RemoteAS: remoteAS, Hold: 90, NoListen: true, IdleHold: 2 * time.Second})
 		e.serve()
@@ -948,6 +966,9 @@ func init() {
 				out = append(out, fmt.Sprintf("shutdown:%s:second-inbound:st=%s", api, st))
 			}
 			out = append(out, "admission:specific-prequeued:i="+api)
+			for _, st := range []string{"openConfirm", "established"} {
+				out = append(out, fmt.Sprintf("shutdown:%s:listener-error:dir=out:st=%s", api, st))
+			}
 		}
 		return out
 	}
